@@ -245,6 +245,13 @@ def run(ck):
         ck.broken.append(f"correspondence on definitions rewritten by a context: {rbad} disagreements")
         if not fails:
             ck.violation("correspondence-redefined", "model of the rewritten file and pint inside the context disagree; no property oracle failed", rfirst, no_input=True)
+    atot, abad, afirst = regk.runtime_alias_stream(ck, rng, 24 if thorough else 5, oracle, "c02")
+    ck.extra["runtime_alias_cases"] = atot
+    ck.extra["runtime_alias_disagreements"] = abad
+    if abad:
+        ck.broken.append(f"correspondence on registries extended by @alias at run time: {abad} disagreements")
+        if not fails:
+            ck.violation("correspondence-runtime-alias", "model of the file with the alias lines and pint after define() disagree; no property oracle failed", afirst, no_input=True)
     bad = ck.coq_mismatches("c02", regk.HEADER, cases, "ok")
     ck.extra["model_vs_impl_cases"] = len(cases)
     ck.extra["model_vs_impl_disagreements"] = None if bad is None else len(bad)
